@@ -102,6 +102,14 @@ def run(rep, tier):
             if c01.norm_ptr(a.get(k, "?")) != c01.norm_ptr(b.get(k, "!")):
                 rep.violation({"what": "behaviour differs between spellings", "event": k}, {"sig": e1["sig"], "std": a, "dipl": b})
         ncmp += 1
+    # (iii) the C++ wrapper decodes the same records: the same entries through the generated C++ API (std::optional /
+    # diplomat::result arms, unit payloads as std::monostate) -- tool/src/cpp/ty.rs is one of the property's anchors
+    import c02
+    cpp_entries = [e for e in entries if c02.usable(e["sig"])]
+    res = c02.build_and_run_cpp(rep, "optenc", defs, cpp_entries, wd, stds=("c++17",) if tier == "quick" else ("c++17", "c++20"))
+    for std, evs in res.items():
+        ncmp += c02.check_events_cpp(rep, g, cpp_entries, evs, std)
+    rep.extra["cpp_entries"] = len(cpp_entries)
     rep.extra["spelling_pairs"] = len(pairs)
     rep.evaluations += ncmp
     rep.traces += ncmp
